@@ -61,6 +61,18 @@ for n in names:
     verdict = 'CAUGHT' if caught else 'MISSED'
     meta['detected_by'] = {'check': prop, 'tier': 'quick', 'caught': caught, 'signatures': sigs,
                            'command': 'tools/run_seeded.sh %s %s' % (n, prop)}
+    if not caught and meta.get('cross_checks'):
+        # the change needs a history that lies outside the quantification of its own property's check (several
+        # simulations sharing an object, another feature): try the checks that cover such histories
+        for other in meta['cross_checks']:
+            o2 = subprocess.run([os.path.join(ROOT, 'tools', 'run_seeded.sh'), n, other], capture_output=True, text=True, timeout=1800).stdout
+            if 'exit=1' in o2 and 'VIOLATION' in o2:
+                caught = True
+                verdict = 'CAUGHT'
+                sigs = ['%s:%s' % (other, x) for x in sorted({l.split('sig=')[1].split()[0] for l in o2.splitlines() if 'sig=' in l})[:5]]
+                meta['detected_by'] = {'check': other, 'tier': 'quick', 'caught': True, 'signatures': sigs, 'own_check_missed': prop,
+                                       'command': 'tools/run_seeded.sh %s %s' % (n, other)}
+                break
     if not caught and 'patch failed' not in out and demo_still_fails(d) is False:
         verdict = 'NEUTRALISED'
         head = subprocess.run(['git', '-C', '/repo', 'log', '--format=%h', '-1'], capture_output=True, text=True).stdout.strip()
